@@ -56,6 +56,9 @@ impl Mode {
 
 // ---------------------------------------------------------------- alphabets
 
+const LONG_LENS: [usize; 9] = [4097, 5000, 8193, 10000, 16385, 20000, 40000, 65537, 100003];
+const LONG_IV_LOW32: [u32; 6] = [0, 0xffffffff, 0xfffffff0, 0xffffff00, 0xfffffe80, 0x7fffff00];
+const BIG_PADS: [usize; 10] = [17, 18, 31, 32, 33, 48, 64, 100, 128, 255];
 const N_KEYS_QUICK: u64 = 4;
 const N_KEYS_THOROUGH: u64 = 8;
 const KEY_NAMES: [&str; 8] = ["zero", "ff", "fips197(00 01 02..)", "sp800-38a", "counter(01 02 ..)", "80 00..", "00.. 01", "mixed"];
@@ -503,6 +506,57 @@ pub fn spaces(tier: Tier) -> Vec<Space> {
     // rejection legs: fewer IVs are enough (CBC does not interpret the IV), all keys
     let ni_rej: u64 = if tier.is_thorough() { 4 } else { 2 };
     v.push(Space::new("cbc-truncation", 2 * nk * ni_rej * 4 * 49, move |case, acc| eval_truncation(case, acc, nk, ni_rej)));
+    // long messages with counters whose low 32 bits carry in the middle of the message (piece-wise keystream generation)
+    v.push(Space::new("long-messages", 4 * 2 * LONG_IV_LOW32.len() as u64 * LONG_LENS.len() as u64, move |case, acc| {
+        let c = coords(case.idx, &[4, 2, LONG_IV_LOW32.len() as u64, LONG_LENS.len() as u64]);
+        let m = MODES[c[0] as usize];
+        let k = key(2 + c[1], m.key_len());
+        let len = LONG_LENS[c[3] as usize];
+        let mut ivb = [0u8; 16];
+        for (j, b) in ivb.iter_mut().enumerate() {
+            *b = j as u8;
+        }
+        ivb[12..].copy_from_slice(&LONG_IV_LOW32[c[2] as usize].to_be_bytes());
+        let message = msg(0, len);
+        let input = json!({"mode": m.name(), "key": hx(&k), "iv": hx(&ivb), "msg_len": len});
+        acc.evaluations += 1;
+        acc.transitions += 2;
+        acc.traces += 1;
+        acc.nontrivial_structural += 1;
+        let want = reference_encrypt(m, &k, &ivb, &message);
+        match lib_encrypt(m, &k, &ivb, &message) {
+            Ok(Ok(ct)) => {
+                outcome_tag(acc, b"ct", &ct);
+                if ct != want {
+                    acc.violate(format!("C20/encrypt/mode={}/kind=wrong-ciphertext", m.name()), case.idx, case.json(input.clone()), format!("{}; long message", first_diff(&ct, &want)));
+                }
+                check_decrypt(case, acc, m, &k, &ivb, &want, &message, "standard-ciphertext", &input);
+            }
+            Ok(Err(e)) => acc.violate(format!("C20/encrypt/mode={}/kind=spurious-error", m.name()), case.idx, case.json(input), e),
+            Err(p) => acc.violate(format!("C20/encrypt/mode={}/kind=panic@{}", m.name(), panic_site(&p)), case.idx, case.json(input), p),
+        }
+    }));
+    // PKCS#7 pad values above the block size, written consistently over several blocks (p bytes all equal to p, 17 <= p <= 255),
+    // and valid ciphertexts followed by 1..15 stray bytes
+    v.push(Space::new("cbc-oversized-padding", 2 * 2 * (BIG_PADS.len() as u64 + 15), move |case, acc| {
+        let c = coords(case.idx, &[2, 2, BIG_PADS.len() as u64 + 15]);
+        let m = MODES[c[0] as usize];
+        let k = key(2 + c[1], m.key_len());
+        let ivb = iv(1, 16);
+        if (c[2] as usize) < BIG_PADS.len() {
+            let p = BIG_PADS[c[2] as usize];
+            let total = ((p + 15) / 16 + 1) * 16;
+            let mut plain = pattern(2, total - p);
+            plain.extend(vec![p as u8; p]);
+            let ct = ra::cbc_encrypt_nopad(&k, &ivb, &plain);
+            cbc_decrypt_vs_reference(case, acc, m, &k, &ivb, &ct, "oversized-padding-value", json!({"mode": m.name(), "pad_value": p, "padded_plaintext": hx(&plain)}));
+        } else {
+            let extra = c[2] as usize - BIG_PADS.len() + 1;
+            let mut ct = ra::cbc_encrypt(&k, &ivb, &pattern(2, 40));
+            ct.extend(vec![0x0au8; extra]);
+            cbc_decrypt_vs_reference(case, acc, m, &k, &ivb, &ct, "stray-bytes-appended", json!({"mode": m.name(), "stray_bytes": extra}));
+        }
+    }));
     let blocks = final_blocks();
     v.push(Space::new("cbc-padding", 2 * nk * ni_rej * 3 * blocks.len() as u64, move |case, acc| eval_padding(case, acc, nk, ni_rej, &blocks)));
     v
